@@ -18,6 +18,10 @@ int !rec(int n, int k) {
     int r = !rec(n - 1, k + 1);
     return r + 1;
 }
+empty !pd(int c, int k) { preempt { write("D"); g += 1; } !truth_is_defeat(c > k); write("e"); }
+empty !pdd(int c, int k) { preempt { write("E"); } !pd(c, k); if (c > k + 1) { !is_defeat(); } write("x"); }
+empty !pe(int c, int k) { if (c > k) { write("i"); } else { preempt { write("Q"); g += 2; } } write("w"); }
+empty !pl(int c, int k) { for (int i = 0; i < c; i += 1) { if (i == k) { preempt { write("L"); break; } } write("o"); } write("v"); }
 empty !deep(int n, int c) { if (n > 0) { int[] pad = [n, n, n]; !deep(n - 1, c); write(pad[0]); } else { !truth_is_defeat(c > 1); } }
 int f(int x) { write("f"); g += x; return x * 2; }
 bool fb(int x) { write("b"); g += 1; return x > 1; }
@@ -91,8 +95,10 @@ class H:
             return [p + '!dn(%s, %s);' % (self.x(), self.k())]
         if c < 0.62:
             return [p + '!p0();']
-        if c < 0.72:
+        if c < 0.68:
             return [p + '!p1(%s, %s);' % (self.x(), self.k())]
+        if c < 0.74:
+            return [p + '!%s(%s, %s);' % (self.r.choice(['pd', 'pd', 'pdd', 'pe', 'pe', 'pl']), self.x(), self.k())]
         if c < 0.8:
             return [p + '%s = !rec(%s, %s); write(%s); write(\' \');' % (self.vars[0], self.r.choice(['2', '3', self.x()]), self.k(), self.vars[0])]
         if c < 0.86:
@@ -116,8 +122,23 @@ class H:
         else:
             local_arr = None
         for _ in range(self.r.randrange(1, 5)):
-            if self.r.random() < 0.55:
+            c = self.r.random()
+            if c < 0.5:
                 lines += self.defeatish(ind + 1)
+            elif c < 0.68:
+                # a loop inside the try body, left by break / continue, with more (defeating) code after it
+                self.n += 1
+                j = 'j%d' % self.n
+                was = self.in_loop
+                self.in_loop = True
+                lines.append('    ' * (ind + 1) + 'for (int %s = 0; %s < %s; %s += 1) {' % (j, j, self.r.choice(['2', '3', self.x()]), j))
+                lines += self.simples(ind + 2, 0, 2, True)
+                lines.append('    ' * (ind + 2) + 'if (%s %s %s) { %s }' % (j, self.r.choice(['==', '>=']), self.k(), self.r.choice(['break;', 'continue;', 'break;'])))
+                if self.r.random() < 0.4:
+                    lines += self.defeatish(ind + 2)
+                lines += self.simples(ind + 2, 0, 2, True)
+                lines.append('    ' * (ind + 1) + '}')
+                self.in_loop = was
             else:
                 lines += self.simples(ind + 1, 1, 2, True)
         if self.r.random() < 0.15:
